@@ -1331,6 +1331,29 @@ class Frame:
             self.env = saved
 
     def e_ListComp(self, node):
+        gens = node.generators
+        if len(gens) == 1 and not gens[0].ifs and isinstance(gens[0].iter, ast.Name):
+            try:
+                src = self.load_name(gens[0].iter.id)
+            except (KeyError, Unsupported):
+                src = None
+            if type(src).__name__ == "SymList":
+                # [f(x) for x in <list of symbolic length>]: the list of the images (evaluated lazily; the element expression must be pure)
+                from . import lazyseq
+                saved_env, fr = self.env, self
+
+                def item(k, src=src):
+                    env = Env(saved_env)
+                    old = fr.env
+                    fr.env = env
+                    try:
+                        fr.assign(gens[0].target, src.item(k))
+                        return fr.eval(node.elt)
+                    finally:
+                        fr.env = old
+                probe = item(T.fresh("probe", "int"))
+                from . import npmodel
+                return lazyseq.SymList(src.length, item, scalar=T.is_scalar(npmodel.unwrap(probe)))
         out = []
         self.comprehension(node.generators, lambda: out.append(self.eval(node.elt)))
         return out
